@@ -148,7 +148,8 @@ class Ctx:
             cfg = module + ".cfg"
         if workers is None:
             workers = NCPU
-        cmd = ["java", "-XX:+UseParallelGC", "-Xss512m", "-Xmx" + heap]
+        # (TLC unpacks its standard modules into java.io.tmpdir for every run: keep that inside the run's own directory)
+        cmd = ["java", "-XX:+UseParallelGC", "-Xss512m", "-Xmx" + heap, "-Djava.io.tmpdir=" + work]
         if deque:
             cmd.append("-Dtlc2.tool.queue.IStateQueue=StateDeque")
         cmd += ["-cp", TLA_CP, "tlc2.TLC", "-metadir", os.path.join(work, "meta"),
